@@ -44,7 +44,7 @@ func genWalHistory(r *rand.Rand) *plan.Plan {
 			sers = append(sers, &ser{metric: fmt.Sprintf("m%d", mI), tags: map[string]string{"host": fmt.Sprintf("h%d", s), "dc": []string{"east", "west"}[r.IntN(2)]}, ts: uint32(simEpochMs/1000) + uint32(r.IntN(50))})
 		}
 	}
-	inc := plan.Incarnation{Boot: "full", SchedSeed: r.Uint64() | 1}
+	inc := plan.Incarnation{Boot: "full", SchedSeed: r.Uint64()>>11 | 1}
 	val := 1.0
 	rounds := 3 + r.IntN(4)
 	names := map[string]bool{}
@@ -85,7 +85,7 @@ func genWalHistory(r *rand.Rand) *plan.Plan {
 		ns = append(ns, n)
 	}
 	sort.Strings(ns)
-	inc1 := plan.Incarnation{Boot: "full", SchedSeed: r.Uint64() | 1}
+	inc1 := plan.Incarnation{Boot: "full", SchedSeed: r.Uint64()>>11 | 1}
 	for _, n := range ns {
 		inc1.Ops = append(inc1.Ops, plan.Op{Kind: "mquery", Text: n, Start: mStart, End: mEnd, Step: 1})
 	}
